@@ -392,6 +392,24 @@ fn gen_valid(rng: &mut impl Rng) -> (String, Expect, Value) {
         v.join("\n")
     };
     let nets_of = |rng: &mut dyn rand::RngCore| if extra_net && rng.gen::<bool>() { format!("\t\t\t[Network id='{live}']\n\t\t\t[Network id='{spare}']") } else { format!("\t\t\t[Network id='{live}']") };
+    // machine names are arbitrary words: in one run in three they are drawn from names that look like numbers or
+    // like pieces of an address (a by-name reference must still find the machine, not be taken for an address)
+    let odd_names = rng.gen_range(0..3) == 0;
+    let mut pool = vec!["7", "42", "2.1", "10.0.1", "0", "255", "1.2.3", "1a", "a.b", "x-1", "3.x", "0x10", "1.2.3.4.5", "999", "1.256"];
+    pool.shuffle(rng);
+    let names = std::cell::RefCell::new((std::collections::HashMap::<String, String>::new(), pool));
+    let nm = |base: &str| -> String {
+        if !odd_names {
+            return base.to_string();
+        }
+        let mut g = names.borrow_mut();
+        if let Some(n) = g.0.get(base) {
+            return n.clone();
+        }
+        let n = g.1.pop().map(|x| x.to_string()).unwrap_or_else(|| base.to_string());
+        g.0.insert(base.to_string(), n.clone());
+        n
+    };
     let mut text = String::new();
     text.push_str("[Machines]\n");
     let mut expect = Expect { frames: vec![] };
@@ -411,6 +429,7 @@ fn gen_valid(rng: &mut impl Rng) -> (String, Expect, Value) {
             secs.swap(1, j);
         }
         // name and the other options in either order
+        let name = nm(name);
         if rng.gen::<bool>() { format!("\t[Machine name='{name}'{opts}{mopts}]\n{}", secs.concat()) } else { format!("\t[Machine{opts}{mopts} name='{name}']\n{}", secs.concat()) }
     };
     // a sender may name its own address (taken from the network's pool) instead of using the default
@@ -424,7 +443,7 @@ fn gen_valid(rng: &mut impl Rng) -> (String, Expect, Value) {
             for g in 0..groups {
                 let count = rng.gen_range(1..=5usize);
                 total += count;
-                let to = if by_name(rng) { "cap".to_string() } else { ipn(0) };
+                let to = if by_name(rng) { nm("cap") } else { ipn(0) };
                 // count='1' may be written or left out
                 let copt = if count > 1 || rng.gen::<bool>() { format!(" count='{count}'") } else { String::new() };
                 let sip = sender_ip(7 + g as u8, count, rng);
@@ -437,8 +456,8 @@ fn gen_valid(rng: &mut impl Rng) -> (String, Expect, Value) {
             desc = json!({"template": "senders->capture(count)", "groups": groups, "total_messages": total, "capture_args": how});
         }
         1 => {
-            let to = if by_name(rng) { "fwd".to_string() } else { ipn(1) };
-            let to2 = if by_name(rng) { "cap".to_string() } else { ipn(2) };
+            let to = if by_name(rng) { nm("fwd") } else { ipn(1) };
+            let to2 = if by_name(rng) { nm("cap") } else { ipn(2) };
             let sip = sender_ip(7, 1, rng);
             text.push_str(&machine("snd", "", &format!("\t\t\t[Application name='send_message' message='{msg}' to='{to}' port='{port_s}'{sip}]"), rng));
             text.push_str(&machine("fwd", "", &format!("\t\t\t[Application name='forward' ip='{}' to='{to2}' local_port='{port_r}' remote_port='{q_s}']", ipn(1)), rng));
@@ -448,7 +467,7 @@ fn gen_valid(rng: &mut impl Rng) -> (String, Expect, Value) {
             desc = json!({"template": "sender->forward->capture(message)"});
         }
         2 => {
-            let (to1, to2) = if by_name(rng) { ("pong".to_string(), "ping".to_string()) } else { (ipn(4), ipn(3)) };
+            let (to1, to2) = if by_name(rng) { (nm("pong"), nm("ping")) } else { (ipn(4), ipn(3)) };
             let yes = *rng.pick(&["true", "true", "t", "T", "True", "TRUE"]);
             let no = *rng.pick(&["false", "false", "f", "F", "False", "no"]);
             text.push_str(&machine("ping", "", &format!("\t\t\t[Application name='ping_pong' starter='{yes}' ip='{}' to='{to1}' local_port='{port_r}' remote_port='{q_s}']", ipn(3)), rng));
@@ -462,7 +481,7 @@ fn gen_valid(rng: &mut impl Rng) -> (String, Expect, Value) {
             // two captures sharing a factory, each with its own senders
             let c1 = rng.gen_range(1..=4usize);
             let c2 = rng.gen_range(1..=4usize);
-            let (t1, t2) = if by_name(rng) { ("capA".to_string(), "capB".to_string()) } else { (ipn(5), ipn(6)) };
+            let (t1, t2) = if by_name(rng) { (nm("capA"), nm("capB")) } else { (ipn(5), ipn(6)) };
             let fac = *rng.pick(&["f1", "0", "shared factory"]);
             text.push_str(&machine("sA", &format!(" count='{c1}'"), &format!("\t\t\t[Application name='send_message' message='{msg}' to='{t1}' port='{port_s}']"), rng));
             text.push_str(&machine("sB", &format!(" count='{c2}'"), &format!("\t\t\t[Application name='send_message' message='{msg}' to='{t2}' port='{port_s}']"), rng));
@@ -477,7 +496,7 @@ fn gen_valid(rng: &mut impl Rng) -> (String, Expect, Value) {
             // one machine; the captures share a factory so that the run ends when both have what they wait for).
             // The capture is listed last, so that the machine's name stands for the capture's address.
             let msg2 = format!("{msg}2");
-            let (tl, tr) = if by_name(rng) { ("left".to_string(), "right".to_string()) } else { (ipn(5), ipn(6)) };
+            let (tl, tr) = if by_name(rng) { (nm("left"), nm("right")) } else { (ipn(5), ipn(6)) };
             let s1 = sender_ip(7, 1, rng);
             let s2 = sender_ip(8, 1, rng);
             text.push_str(&machine("left", "", &format!("\t\t\t[Application name='send_message' message='{msg}' to='{tr}' port='{port_s}'{s1}]\n\t\t\t[Application name='capture' type='message' message='{msg2}' ip='{}' factory='both' port='{q_r}']", ipn(5)), rng));
@@ -545,7 +564,7 @@ fn gen_valid(rng: &mut impl Rng) -> (String, Expect, Value) {
         1 => text.replace('\t', "    "),
         _ => text.replace('\n', "\r\n"),
     };
-    (text, expect, json!({"what": desc, "arp": arp, "auto_protocol": auto_name, "by_name": by_name_name, "extra_network": extra_net, "port": format!("{port_s} / {port_r}"), "style": style_name, "network_ids": [live, spare], "address_entries": entries}))
+    (text, expect, json!({"what": desc, "arp": arp, "auto_protocol": auto_name, "by_name": by_name_name, "extra_network": extra_net, "port": format!("{port_s} / {port_r}"), "style": style_name, "network_ids": [live, spare], "odd_machine_names": odd_names, "address_entries": entries}))
 }
 
 fn run_case(d: &mut Delta, rng: &mut rand::rngs::SmallRng, sample: bool) {
